@@ -143,6 +143,8 @@ def generate(R, tier, focus):
             ops.append({'op': 'TEST', 'name': R.choice(testable), 'obs': R.randrange(len(obs)),
                         'rng_state': R.randint(0, 2 ** 31 - 1),
                         'seed': R.choice((None, 1, 7, 2 ** 32 - 1, R.randint(1, 10 ** 6)))})
+        elif focus in ('C10', 'C18') and R.random() < 0.15:
+            ops.append({'op': 'CALIBRATION', 'delta_1': R.random() < 0.5})
         else:
             ops.append({'op': R.choice(PLAIN_OPS)})
     probe = None
@@ -504,6 +506,7 @@ def _execute(scn, ctx, store, rng, clock, collect_results):
     first_mags = None
     prev_state = abstract_state(fc, J)
     ctx.state(prev_state)
+    run_results = []
     for oi, op in enumerate(scn['ops']):
         kind = op['op']
         label = kind if kind != 'TEST' else 'TEST:' + op['name']
@@ -597,6 +600,9 @@ def _execute(scn, ctx, store, rng, clock, collect_results):
                 if want is not None and (data.shape != want.shape or
                                          not numpy.allclose(data, want, rtol=1e-12, atol=1e-300)):
                     ctx.violate('C13', 'marginals', kind + ':not-marginal-of-mean', {'op': oi})
+        elif kind == 'CALIBRATION':
+            if ctx.wants('C10') and run_results:
+                check_calibration(ctx, run_results, op, oi, collect_results)
         elif kind == 'TEST':
             name = op['name']
             region_s = fc.region
@@ -632,6 +638,8 @@ def _execute(scn, ctx, store, rng, clock, collect_results):
             ctx.log('test', oi, name, vs if vs is None else [vs['status'], vs['obs'], vs['quantile'], vs['dist']])
             if collect_results is not None and rs[1] is not None:
                 collect_results.append((oi, name, rs[1]))
+            if rs[1] is not None:
+                run_results.append(rs[1])
             if (vs is None) != (vt is None):
                 ctx.violate('C13', 'evaluation_vs_twin', '%s:none-vs-result' % name, {'op': oi})
             elif vs is not None:
@@ -728,6 +736,33 @@ def run_probe(scn, ctx, w, canon):
             ctx.count('probe:after_ioerror:recovers_with_complete_pass')
         else:
             ctx.count('probe:after_ioerror:next_pass_incomplete')
+
+
+def check_calibration(ctx, results, op, oi, collect_results):
+    """calibration_test = one-sample KS distance of the valid results' quantiles from the uniform law"""
+    from csep.core import catalog_evaluations as ce
+    idx = 0 if op['delta_1'] else 1
+    valid = [r for r in results if r.status != 'not-valid']
+    qs = [r.quantile[idx] for r in valid]
+    if not qs or any(q is None for q in qs):
+        return
+    r = call(ce.calibration_test, list(results), delta_1=op['delta_1'])
+    if r[0] != 'ok':
+        ctx.violate('C10', 'calibration', 'exception:%s' % r[1], {'op': oi, 'msg': r[2], 'n': len(qs)})
+        return
+    res = r[1]
+    ctx.count('c10_compared:calibration')
+    if collect_results is not None:
+        collect_results.append((oi, 'calibration', res))
+    xs = sorted(float(q) for q in qs)
+    n = len(xs)
+    d = max(max((i + 1) / n - x, x - i / n) for i, x in enumerate(xs))
+    if not models.close_seq([float(x) for x in res.test_distribution], [float(q) for q in qs], 1e-12, 1e-12):
+        ctx.violate('C10', 'calibration', 'quantiles-used', {'op': oi, 'got': list(res.test_distribution), 'want': qs})
+    elif not models.close(res.observed_statistic, d, 1e-9, 1e-12):
+        ctx.violate('C10', 'calibration', 'ks-distance', {'op': oi, 'got': res.observed_statistic, 'want': d})
+    elif not (0.0 <= float(res.quantile) <= 1.0):
+        ctx.violate('C10', 'calibration', 'p-value-out-of-range', {'op': oi, 'got': res.quantile})
 
 
 def _hist_of_resample(values, mags):
